@@ -215,11 +215,25 @@ def summaries():
             r, c = r
         c = r if c is None else c
         return SymMat((r, c), [0] * (r * c))
+    def matrix(*a):
+        # sympy.Matrix(rows, cols, flat list) | sympy.Matrix(list of rows) | sympy.Matrix(flat list -> column)
+        if len(a) == 3:
+            r, c, flat = a
+            flat = list(flat.flat) if isinstance(flat, SymArr) else list(flat)
+            return SymMat((r, c), flat)
+        v = a[0]
+        if isinstance(v, SymArr):
+            return SymMat(v.shape if v.ndim == 2 else (v.shape[0], 1), list(v.flat))
+        v = list(v)
+        if v and isinstance(v[0], (list, tuple)):
+            return SymMat((len(v), len(v[0])), [x for row in v for x in row])
+        return SymMat((len(v), 1), v)
     return {
         "checkEquation": check_equation, "Model._getListOfVariablesDict": lambda me: ([], {}),
         "sympy.zeros": zeros, "np.zeros": zeros, "sympy.Matrix.zeros": zeros,
         "simplifyEquation": lambda e: (e, False), "copy.deepcopy": lambda x: x.copy() if hasattr(x, "copy") else x,
-        "sympy.Integer": lambda v: A.Rat.const(int(v)), "sympy.S": lambda v: A.lift(v),
+        "sympy.Integer": lambda v: A.Rat.const(int(v)), "sympy.S": lambda v: A.lift(v), "sympy.sympify": lambda v: A.lift(v),
+        "sympy.Matrix": matrix, "sympy.ImmutableMatrix": matrix, "sympy.Add": lambda *a: sum((A.lift(x) for x in a), A.Rat.const(0)),
     }
 
 
@@ -252,7 +266,7 @@ def run_builder(repo, cls, name, d):
         raise AnalysisError("builder %s vanished" % name)
     me = model_obj(d)
     ab = Abs({}, {}, summaries(), me, GETTERS, eq=_eq_hook, budget=200000)
-    ab.consts = {"TransitionType": TT}
+    ab.consts = {"TransitionType": TT, "sympy.S.Zero": A.Rat.const(0), "sympy.S.One": A.Rat.const(1), "S.Zero": A.Rat.const(0), "sympy.Integer(0)": A.Rat.const(0)}
     ab.class_methods = set(repo.all_methods(cls)) | {g for c in repo.mro(cls) for g in c.getters}
     kind, out = ab.run_function(fn.node, {})
     return fn, kind, out, me
